@@ -106,8 +106,8 @@ def _solve_poisson_ivp_atomgrid(
     boundary = atomgrid.integrate(func_vals) / sph_o_l[0, 0]
 
     # Set up default ode parameters if it isn't set up already.
-    if ode_params is None:
-        ode_params = dict({})
+    # copy: the defaults below must not be written into the caller's dictionary
+    ode_params = dict({}) if ode_params is None else dict(ode_params)
     ode_params.setdefault("method", "DOP853")
     ode_params.setdefault("rtol", 1e-8)
     ode_params.setdefault("atol", 1e-6)
@@ -265,8 +265,8 @@ def _solve_poisson_bvp_atomgrid(
         rad_points = np.delete(rad_points, indices)
 
     # Set up default ode parameters if it isn't set up already.
-    if ode_params is None:
-        ode_params = dict({})
+    # copy: the defaults below must not be written into the caller's dictionary
+    ode_params = dict({}) if ode_params is None else dict(ode_params)
     ode_params.setdefault("tol", 1e-6)
     ode_params.setdefault("max_nodes", 50000)
     ode_params.setdefault("no_derivatives", True)
